@@ -102,36 +102,36 @@ pub(crate) fn extract_entries_inner(
     let mut entries = Vec::new();
 
     let chunk_size = 16384usize.next_multiple_of(payload_size.line_size());
-    let overlap = payload_size.metainfo_size();
+    // an unfinished meta section at the end of a chunk is at most this long
+    let max_carried = payload_size.metainfo_size();
 
-    // do not init with zero or the initially empty overlap
-    // will be seen as a full timestamp
-    let mut buffer = vec![1u8; chunk_size + overlap];
+    let mut buffer = vec![0u8; chunk_size + max_carried];
     file.seek(std::io::SeekFrom::Start(start))
         .map_err(ExtractingTsError::Seek)?;
 
     let mut to_read = end - start;
     let mut previously_read = 0;
+    // number of bytes at the start of the buffer that belong to a meta
+    // section that started at the end of the previous chunk
+    let mut carried = 0;
 
     while to_read > 0 {
         let read_size = chunk_size.min(usize::try_from(to_read).unwrap_or(usize::MAX));
-        file.read_exact(&mut buffer[overlap..overlap + read_size])
+        file.read_exact(&mut buffer[carried..carried + read_size])
             .map_err(ExtractingTsError::ReadChunk)?;
         to_read -= read_size as u64;
 
-        entries.extend(
-            meta(
-                &buffer[..overlap + read_size],
-                payload_size.line_size(),
-                overlap,
-            )
-            .into_iter()
-            .map(|(pos, timestamp)| Entry {
-                timestamp,
-                meta_start: super::MetaPos(previously_read + pos as u64),
-            }),
-        );
+        let filled = carried + read_size;
+        let (found, unfinished) = meta(&buffer[..filled], payload_size.line_size());
+        entries.extend(found.into_iter().map(|(pos, timestamp)| Entry {
+            timestamp,
+            meta_start: super::MetaPos(previously_read - carried as u64 + pos as u64),
+        }));
         previously_read += read_size as u64;
+
+        // scan the unfinished meta section again together with the next chunk
+        buffer.copy_within(filled - unfinished..filled, 0);
+        carried = unfinished;
     }
 
     Ok(entries)
@@ -177,31 +177,36 @@ pub(crate) fn last_meta_timestamp(
     }
 }
 
+/// Returns the offset in `buf` and the timestamp of every complete meta section
+/// in `buf` and the number of bytes at the end of `buf` that are the start of
+/// a meta section that is not complete yet.
 #[instrument(skip(buf))]
-pub(crate) fn meta(buf: &[u8], line_size: usize, overlap: usize) -> Vec<(usize, u64)> {
+pub(crate) fn meta(buf: &[u8], line_size: usize) -> (Vec<(usize, u64)>, usize) {
     let mut chunks = buf.chunks_exact(line_size).enumerate();
     let mut res = Vec::new();
     loop {
         let Some((idx, chunk)) = chunks.next() else {
-            return res;
+            return (res, 0);
         };
         if chunk[..2] != meta::PREAMBLE {
             continue;
         }
 
         let Some((_, next_chunk)) = chunks.next() else {
-            return res;
+            return (res, line_size);
         };
         if next_chunk[..2] != meta::PREAMBLE {
             continue;
         }
 
         let chunks = chunks.by_ref().map(|(_, chunk)| chunk);
-        let meta::Result::Meta { meta, .. } = meta::read(chunks, chunk, next_chunk)
-        else {
-            return res;
+        let meta = match meta::read(chunks, chunk, next_chunk) {
+            meta::Result::Meta { meta } => meta,
+            meta::Result::OutOfLines { consumed_lines } => {
+                return (res, (2 + consumed_lines) * line_size);
+            }
         };
-        let index_of_meta = idx * line_size - overlap;
+        let index_of_meta = idx * line_size;
         let ts = u64::from_le_bytes(meta);
         res.push((index_of_meta, ts));
     }
